@@ -153,14 +153,18 @@ CLAIMS["C19"] = {
             "a crash outcome can only come from an instruction handler or a user hook (step_panic_only_from_exec_or_hook, given well-formed "
             "memory; hook chains crash only if a hook function does); undecodable bytes, an empty or unfetchable window, unsupported mnemonics "
             "and unimplemented or unknown forms are error values for every state; register, memory and fetch primitives never crash for any "
-            "address, length or value (C07/C08/C09). The handlers' remaining crash sites are transcribed as Out.panic in the model and tied to "
+            "address, length or value (C07/C08/C09); handler_crash_causes: over the whole dispatch table, a handler's crash outcome has one of six "
+            "enumerated causes - ill-formed memory (excluded by the memory invariants), a decoded instruction whose operands do not have the "
+            "shape the form expects (missing operand or unknown register, non-register where a register is required, base/index of the wrong "
+            "class, PUSH/POP r without a register) or a constant flag mask asking for an unimplemented flag - so no arithmetic, shift, index, "
+            "register or memory primitive is a crash site. What iced actually hands over is tied to "
             "the code by a byte-string fuzzer: uniform, prefix/opcode-structured and mutated-valid strings of 1..15 bytes, code placed at the "
             "usual address and at the edges of the address space, arbitrary registers/flags/segment bases, 0-4 data pages with arbitrary "
             "permissions; implementation under catch_unwind and a process watchdog; outcome and full state compared with the model after the "
             "step and after a second step from wherever the first one went.",
     "design_ref": "DESIGN.md section 7, C19",
     "note": COMMON_NOTE + "iced-x86's decoder is third-party code that is exercised (every byte string goes through it) but not modelled; "
-            "per-handler crash-freedom is proved for the frame and primitives and sampled for handler bodies.",
+            "the operand shapes iced delivers per Code (the hypotheses under which handler_crash_causes excludes a crash) are exercised by the fuzzer, not proved.",
     "technique": "Lean 4 proof (totality, crash-freedom of frame and primitives, error theorems) + fuzzed model-vs-code correspondence with crash oracle",
 }
 
